@@ -458,9 +458,10 @@ SigVec g_sigs; int nondet_int(void);
 static inline size_t SV_size(SigVec* v) { return v->n; }
 static inline int SV_get(SigVec* v, size_t i) { if (i == v->g_p) return v->tracked; return nondet_int(); }
 bool g_tracked_installed, g_alarm_installed, g_install_fails; size_t g_installs; bool g_other_is_alarm;
-/* std::signal(sig, on_signal<...>) / std::signal(SIGALRM, on_alarm): true = SIG_ERR */
-bool INSTALL_ON_SIGNAL(int sig) __CPROVER_assigns(g_installs, g_tracked_installed) __CPROVER_ensures(g_installs == OLD(g_installs) + 1 && RET == g_install_fails && g_tracked_installed == (OLD(g_tracked_installed) || (sig == g_sigs.tracked && !g_install_fails)));
-bool INSTALL_ON_ALARM(void) __CPROVER_assigns(g_alarm_installed) __CPROVER_ensures(RET == g_install_fails && g_alarm_installed == !g_install_fails);
+/* std::signal(sig, on_signal<...>) / std::signal(SIGALRM, on_alarm): returns SIG_ERR_ on failure, the previous handler (0) otherwise */
+#define SIG_ERR_ 1
+int INSTALL_ON_SIGNAL(int sig) __CPROVER_assigns(g_installs, g_tracked_installed) __CPROVER_ensures(g_installs == OLD(g_installs) + 1 && RET == (g_install_fails ? SIG_ERR_ : 0) && g_tracked_installed == (OLD(g_tracked_installed) || (sig == g_sigs.tracked && !g_install_fails)));
+int INSTALL_ON_ALARM(void) __CPROVER_assigns(g_alarm_installed) __CPROVER_ensures(RET == (g_install_fails ? SIG_ERR_ : 0) && g_alarm_installed == !g_install_fails);
 '''
 init_handler = dict(
     name='SIG.init_handler', primary='C07', props={'C07'}, kind='S',
@@ -469,8 +470,8 @@ init_handler = dict(
     funcs=[dict(src=dict(header=SH, cls=None, name='init_signal_handler', nth=0), src_params=['catchable_signals'], cfun='init_signal_handler', sig='void init_signal_handler(void)', member_fields=[], exceptions=True, may_throw=[],
                 range_for=[(r'g_sigs', 'SV_size', 'SV_get', 'int')],
                 pre_rules=[(r'\bcatchable_signals\b', 'g_sigs'), (r'\bSIGALRM\b', 'SIGALRM_'),
-                           (r'std::signal\(catchable_signal,\s*on_signal<TFrontendOptions>\)\s*==\s*SIG_ERR', 'INSTALL_ON_SIGNAL(catchable_signal)'),
-                           (r'std::signal\(SIGALRM_,\s*on_alarm\)\s*==\s*SIG_ERR', 'INSTALL_ON_ALARM()'),
+                           (r'std::signal\(catchable_signal,\s*on_signal<TFrontendOptions>\)', 'INSTALL_ON_SIGNAL(catchable_signal)'), (r'\bSIG_ERR\b', 'SIG_ERR_'),
+                           (r'std::signal\(SIGALRM_,\s*on_alarm\)', 'INSTALL_ON_ALARM()'),
                            (r'throw\s*\(?\s*QuillError\s*\{.*?\}\s*\)?\s*;', 'throw(QuillError{"x"});')],
                 loops={0: r'''
 __CPROVER_assigns(__i0, g_installs, g_tracked_installed, g_exc)
